@@ -6,6 +6,19 @@ ALL = ["C%02d" % i for i in range(1, 21)]
 
 # id -> (technique, level text, level_note, design_ref)
 CLAIMS = {
+ "C11": ("Lean 4 liveness/termination proofs over all schedules of a bounded-FIFO pipeline model + status/substitution/read theorems; timed correspondence with pause points",
+         "Proof (partial: model-level liveness): Model/Pipe.lean is a network of stages connected by bounded FIFOs with a nondeterministic step relation (the "
+         "scheduler picks stage and chunk size), stage kinds concurrent vs inline (brush runs compound/function stages to completion while spawning), EPIPE, the "
+         "wait loop, trailing-newline stripping and byte-at-a-time read. every_schedule_terminates (well-founded measure), concurrent_never_stuck and "
+         "all_concurrent_live (any payload length, capacity, chunking: terminates, never stuck, output = composition of the stage maps), "
+         "inline_nonfinal_deadlocks (cex for every cap and every input longer than cap) and pipeline_live_partial under the guard, "
+         "early_exit_reader_ends_writer_partial (+cex), pipestatus_lists_all_stages, pipefail_status, cmdsubst_output_minus_trailing_newlines, "
+         "cmdsubst_drains_any_size, read_consumes_exactly_one_line, reads_partition_descriptor. Tie: the brush binary and bash under a deadline on 2–4 stage "
+         "pipelines with every stage class in every position, payloads 1 B … 1/4 MiB around the measured pipe capacity, early-exit readers, re-run under each "
+         "stage_spawned pause point (verif-hooks); the model run under two extreme schedules predicts completes/deadlocks, output hash, PIPESTATUS.",
+         "Trusted: Lean kernel + standard axioms. Not expressible in the model and only observed: tokio scheduler fairness, SIGPIPE delivery timing, pipe "
+         "write atomicity/page granularity (payload sizes between half and full capacity are not generated for inline stages), kernel pipe semantics.",
+         "DESIGN.md §6 C11"),
  "C01": ("Lean 4 no-panic / termination proofs for the integer-and-index hot spots (checked-arithmetic model) + in-process correspondence; fuzzing only as labelled support",
          "Proof (partial by nature): Model/Checked.lean models usize/i64/u32 arithmetic as checked operations returning `Except Panic _` and mirrors, line for "
          "line, the hot spots where the dev-profile binary can panic: ${v:o:l} clamping and polymorphic_subslice, array index normalisation, brace number "
